@@ -681,25 +681,26 @@ class WorkQueue:
         del group_nodes[group]
         for task in list(group_node.tasks):
             if all(task_group not in group_nodes for task_group in task.groups):
-                self._cancel_child_streams(task)
+                self._cancel_removed_task(task)
                 self._remove_task(task)
         for child_group in group_node.child_groups:
             child_group_node = group_nodes.get(child_group)
             if child_group_node:
                 self._remove_group(child_group, child_group_node)
 
-    def _cancel_child_streams(self, task: WorkTask) -> None:
-        """Cancel the streams produced by a task that is removed undelivered."""
-        task_node = self._task_nodes.get(task)
-        if task_node and task_node.child_streams:
-            cancel_awaitables: list[Awaitable[Any]] = []
-            for child_stream in task_node.child_streams:
-                self._cancel_stream(child_stream, None, cancel_awaitables)
-            cleanup_futures = self._cleanup_futures
-            for awaitable in cancel_awaitables:
-                future = ensure_future(awaitable)
-                cleanup_futures.add(future)
-                future.add_done_callback(cleanup_futures.discard)
+    def _cancel_removed_task(self, task: WorkTask) -> None:
+        """Cancel a task that is removed undelivered with the streams produced by it.
+
+        The task may still be running or may not even have been started; since its
+        result will never be delivered, it must not be left running unobserved.
+        """
+        cancel_awaitables: list[Awaitable[Any]] = []
+        self._cancel_task(task, None, cancel_awaitables)
+        cleanup_futures = self._cleanup_futures
+        for awaitable in cancel_awaitables:
+            future = ensure_future(awaitable)
+            cleanup_futures.add(future)
+            future.add_done_callback(cleanup_futures.discard)
 
     def _remove_task(self, task: WorkTask) -> None:
         """Remove a task from all its groups and from the graph."""
